@@ -22,7 +22,9 @@ class ObjectStore_getitem:
         return not in_store(self, sha)
 
     def ensures(self, sha, result):
-        return result == blob_of(sha)
+        # content addressing: the object stored under an id is the one whose bytes hash to it
+        # (blob_bytes = the inverse of the blob hash, as in the concrete repository model)
+        return result == blob_of(sha) and b"".join(result.chunked) == blob_bytes(sha)
 
 
 @contract("iface:File.get_uid", params={"self": "opaque:File"}, returns="str", assumed=True)
